@@ -10,10 +10,70 @@ for line in open(os.path.join(HERE, "properties.jsonl")):
 
 # id -> (design_ref, technique, level text, level_note)
 CLAIMED = {
+ "C01": ("6 / C01",
+         "TLA+ specs SFileFormat.tla (character-level header writer/scanner/evaluator; refinement obligations checked exhaustively by TLC, pinned END scanner as violating variant) and BinRoundTrip.tla (file state machine over field descriptors, row tokens, header ids; cross-entry agreement); every TLC-enumerated/simulated case executed through 6 writing and 10 reading entry points and judged by TLC trace validation (BinRoundTripTrace)",
+         "TLC checks on every header of the bounded token space that the implementation-shaped header mechanism refines DataStart(Write(h)) = Len(HeaderBytes(h)) and ParseDict(lines) = h, and the property-level invariants of the file state machine. Every enumerated header, every one- and two-field dtype x byte order x entry point, simulated 3-6-field dtypes and seeded random tables/headers are written and read back through every entry point of the real code with adversarial row bytes, and the projected observations are accepted or rejected by the same TLA+ property.",
+         "Dtype space beyond two fields sampled. Non-contiguous inputs out of scope. Underscore-prefixed keys unconstrained. Header values compared with Python ==. Low-level readers given offset = size - rows x itemsize (tail checked by raw_rows). Trusted: TLC, numpy tobytes/dtype projection, adapter token/id mapping (self-tested by 9 corruptions)."),
+ "C02": ("6 / C02",
+         "TLA+ spec Select.tla (Python slice rule, row-list normalisation, column order, access styles, split/reduce): TLC checks the implementation-shaped slice-normalisation and file-cursor mechanisms against it (SelectMC), exports every row/column request and read sequences on one handle; each executed on real SFile/Recfile handles (binary + text) in every access style and every read judged by TLC trace validation (SelectTrace)",
+         "Exhaustive over tables of 1..n rows: every slice with bounds in [-n-2, n+2] or None and positive steps, every short row list and permutation, every scalar row, every ordered column subset x {none, split, reduce}, in six access styles on binary and text files, plus behaviours of several reads on one handle (the cursor is state) and seeded sessions on larger tables. TLC decides what each read must return; the real result is projected to (columns, original row indices, form).",
+         "The fully-read table is the reference (its faithfulness is C01/C04; fixtures are verified to read back as written). Scalar rows outside [-n, n) are outside the quantifier; negative entries inside a row list and the empty list may be rejected or served as numpy would. Trusted: TLC, unique-token cell identification."),
+ "C04": ("6 / C04",
+         "TLA+ spec TextCodec.tla: character-level writer/scanner of records.cpp as a mechanism checked by TLC against the round-trip obligation (named hazards give signatures; pinned scanf-format scanner as violating variant); TextCodecMC enumerates bounded table families; each written/read with sfile and recfile for six delimiters and both byte orders; results judged by TLC trace validation (TextCodecTrace)",
+         "TLC enumerates adjacency-exhaustive layouts (number->string, string->number, string/number last), every string over {space, delimiter, letter, pad} up to width 3 (widths to 12 sampled), every integer type with its extremes, floats on the short-decimal lattice plus NaN/inf/signed zero, sub-arrays; every exported table is written and read back by the real code and the abstraction of what came back must equal what was written, with names, shapes, native order and header _DELIM/_DTYPE.",
+         "Floats are decided on the short-decimal lattice (<= 15 / <= 6 significant digits) where 16/7-digit round trip reduces to equality; generic 16th/7th digit rounding is not decided. Strings: printable ASCII, space, tab (no newline/CR/NUL inside). Trusted: TLC, byte->token abstraction (same map both ways)."),
  "C05": ("6 / C05",
          "TLA+ spec Hist.tla: exhaustive TLC small-scope model (HistMC) incl. implementation-shaped pass refinement; every TLC-enumerated case replayed into both engines and judged by TLC trace validation (HistTrace)",
          "TLC checks on every case of the bounded space that the implementation-shaped single pass refines the property-level histogram spec; every one of those cases is then executed against the real C and Python engines on dyadic lattices and the recorded results (plus larger seeded arrays) are accepted or rejected by the same TLA+ property (counts, rev slices, order, completeness, engine equality).",
          "Decided on the dyadic lattice only (bin index exact there; integer quotients with inexact bin size are unconstrained). Off-lattice data: engine-vs-engine equality only. Trusted: TLC, adapter concretisation (value=(x+off)*unit)."),
+ "C06": ("6 / C06",
+         "TLA+ spec ArrayMatch.tla (match / unique / rem_dup as set-sequence definitions); ArrayMatchMC enumerates every (a1, a2) and (array, flags) pair of the bounded space; each realised through order-preserving injections (64-bit extremes, floats, byte/unicode strings) and run through match, match_multi, presorted, scalars, unique, rem_dup; results judged by TLC trace validation (ArrayMatchTrace)",
+         "Exhaustive over first arrays of distinct values (any order) and second arrays with repeats over a domain extending beyond the first array's range, and over arrays x flags for the de-duplication helpers; every abstract case is executed in several concrete realisations and larger seeded arrays go the code->spec way. TLC evaluates soundness, completeness, order by second-array position, presorted agreement, rejection of repeated first arrays, one index per value / largest flag.",
+         "Values are realised by strictly increasing injections (checked against numpy's ordering at start). Mixed signed/unsigned 64-bit pairs, NaN and empty arrays are outside the quantifier. Trusted: TLC, injection mapping."),
+ "C07": ("6 / C07",
+         "TLA+ spec FieldOps.tla: state machine over 'the current array' (field sequence with kind, sub-shape, order, data token); FieldOpsMC enumerates every chain of field operations of bounded depth; each replayed through the real numpy_util functions with the result of one call as input of the next; every step judged by TLC trace validation (FieldOpsTrace)",
+         "TLC enumerates chains of extract / remove / add / reorder / combine / copy_fields / split over bounded arrays (mixed byte orders, strings, sub-array fields, 0-d..2-d) and every single operation over the full alphabet; before and after every real call the arrays are projected to [shape, fields: (name, kind, sub-shape, byte order, data token)] and the (pre, op, observation) steps must be allowed by the spec, including the documented rejections.",
+         "Data tokens are NaN-free and -0.0-free so element-wise equality is byte equality. Undocumented argument forms are tallied but do not gate. Aligned dtypes, zero-size arrays, duplicate names in one request are outside the quantifier. Trusted: TLC, token projection."),
+ "C08": ("6 / C08",
+         "TLA+ spec Sphere.tla: exact great-circle lattice (integer + symbolic epsilon degrees) and rational sphere (Pythagorean quadruples); SphereMC checks the lattice theorems and the near-antipodal branch mechanism and exports exact separations / dot products; every pair evaluated by sphdist (4 unit combinations) and gcirc in both orders, +-360, as scalars, length-1/3/long arrays and one-point-vs-array; returned numbers projected with exact Fraction/decimal arithmetic and judged by TLC (SphereTrace)",
+         "Exhaustive over the bounded lattices incl. coincident, 1e-12..1e-3 degree apart, 180-1e-9, exactly antipodal, polar and seam-crossing pairs; TLC recomputes SepGC / CosSep from the case and accepts only the exact lattice value within the tolerance the statement gives (1e-11 / 2e-6 degree), plus finite, range, exactly zero for identical inputs.",
+         "Accuracy at generic doubles off both lattices is not decided (no transcendental oracle in TLA+). Lattice inputs are rounded once to doubles (2e-13 degree allowance). Trusted: TLC, Fraction/60-digit decimal projection (self-validated per run)."),
+ "C09": ("6 / C09",
+         "TLA+ spec Frames.tla: TLC derives the path equations of the conversion groupoid (inverse pairs, chained = direct), anchor facts from the documented pole/node constants, dyadic shift arithmetic with an add-then-fold refinement, quarter-turn Euler rotations as cube rotations; every exported case executed in esutil.coords on both lattices; projected observations judged by TLC (FramesTrace)",
+         "Exhaustive over all composable conversion paths <= 3 (thorough 4) x bounded great-circle / decimal / rational-sphere lattices (all source and target poles, lon 0/360, SDSS node) x {J2000, B1950} x call shapes: equations and isometry at the stated on-sky tolerance, finite outputs in documented ranges, unit vectors, shiftlon/shiftra exact mod 360 with the stated intervals.",
+         "Rotation-matrix entries are not compared (anchors + isometry instead; B1950 has no documented constants, hence no anchors). The rotate inverse convention and undocumented longitude ranges are accepted as silent. An equation between n conversions is allowed (n-1)x the per-pair tolerance. Trusted: longdouble chord kernel (validated per run), Fraction/decimal projection, TLC."),
+ "C10": ("6 / C10",
+         "TLA+ spec Wcs.tla: TLC enumerates bounded WCS headers x pixels with exact rational World coordinates (class representative = pure-TAN header), gnomonic / CRVAL anchors on the great-circle lattice and all call histories; mechanism model of coefficient extraction/dispatch refines World; every case runs on the real wcsutil.WCS and TLC (WcsTrace) judges the records",
+         "Model checking of Wcs.tla (exhaustive at the stated bounds) with two-way conformance: observational-equivalence classes (TPV/SIP vs pure TAN) must agree to 1e-9 degree, anchors at 30/45/60 degrees incl. polar and seam CRVAL, reference pixel -> CRVAL with longitude in [0,360), round trips with and without root finding, scalar vs array, and every call sequence of length <= 4 on one object bit-identical to fresh objects.",
+         "Not decided: 1e-9 degree agreement with the FITS reference between anchors/classes at arbitrary coefficients (arctan/rotation numerics), accuracy of the fitted inverse polynomial (find=False: finite only). Assumes complete PV sets, no radial PV terms. Trusted: TLC, long-double separation kernel (self-tested), float(Fraction) on dyadic lattices."),
+ "C11": ("6 / C11",
+         "TLA+ spec Cosmo.tla: parameter normalisation, exact rational E^2(z), an identity catalogue as expression trees, an argument-shape dispatch machine and copy/pickle object-graph behaviours; CosmoMC enumerates constructor args x redshift pairs, shape pairs and copy chains (mechanism transcriptions checked by refinement invariants + deviating self-test); every exported case executed on the real Cosmo class; residuals and observations judged by TLC (CosmoTrace)",
+         "Bounded exhaustive model checking with conformance in both directions: all grid cosmologies x lattice redshift pairs x 27 identities (incl. result = the documented 5/10-point Gauss-Legendre sum of the exact integrand, Hogg's distance-addition formula, Einstein-de Sitter anchors), all shape pairs of length <= 3 x 8 quantities x 3 cosmologies element-for-element bit-equal to scalar calls, all copy/deepcopy/pickle chains <= 3, plus seeded finer-lattice cases.",
+         "The '<= 1.5 x truncation error' clause is decided as 'result = documented n-point GL sum of the exact integrand' (rule = esutil.integrate.gauleg per C17, or the exact rule). Absolute truncation size only at the EdS anchors and via Hogg addition on concordance-like parameters; 4 pi G / c^2 to 5e-4. Trusted: TLC, the Fraction evaluator in vh/cosmolat.py (sqrt/sinh/sin/log10 >= 45 digits)."),
+ "C15": ("6 / C15",
+         "TLA+ spec Frame.tla: catalogue of public array-taking entry points with the frame condition UNCHANGED on every argument not documented in-place, layout lattice (byte order, contiguity, kind, 0-d..2-d), argument-path mechanism refining Invoke (FrameMC); every exported invocation executed with arguments built in exactly that layout, snapshotted before/after (bytes, base buffer, dtype, flags, strides) and judged by TLC (FrameTrace)",
+         "Exhaustive over catalogue entries x admissible dimensionalities x option values x layout assignments (every admissible [order, contiguity, kind] of one parameter with the others in base layout; thorough: pairs). Whatever the call returned or raised, the recorded step must be an Invoke step, i.e. every non-mutable argument bit-for-bit unchanged in data, whole base buffer, dtype incl. byte order, flags and strides.",
+         "The catalogue (Frame.tla FrCalls) is the set of public array-taking entry points of the families the statement lists; undocumented in-place helpers (coords.atbound/atbound2) are not claimed; arguments documented as written are exempt. Trusted: TLC, snapshot digests."),
+ "C16": ("6 / C16",
+         "TLA+ spec ByteOrder.tla: array = fields with declared order character and physical order, buffer identity; ByteOrderMC enumerates every abstract array and every chain of conversions (to_native / to_big / to_little / byteswap x inplace x keep_dtype) of bounded depth with idempotence / swap-twice as theorems; each chain executed on real numpy arrays; every step projected and judged by TLC (ByteOrderTrace)",
+         "Exhaustive over plain arrays of every numeric kind and order spelling and structured arrays mixing multi-byte, single-byte and string fields in every position, 0-d..2-d, and chains of <= 3 conversions (aliasing matters); after every real step the declared order per field, the physical order (bytes compared with both encodings of known values), buffer identity and structure are projected and must be allowed by the spec; predicates and descriptor helpers likewise.",
+         "keep_dtype=True is read as: bytes converted exactly as without it, dtype left as it was. numpy canonicalises the machine's own order to '=', so three of the four order characters are observable per machine; the spec is checked for both machine orders. Trusted: TLC, physical-order detection (values are never byte palindromes)."),
+ "C17": ("6 / C17",
+         "TLA+ spec Quadrature.tla: exact polynomial moments (integers/rationals) of Gauss-Legendre rules, QGauss cache state machine, tensor rule, tabulated-data integrand = piecewise-linear interpolation; QuadratureMC exports moments, call sequences, tensor shapes and tables; gauleg output and rules extracted from the integrators with recording/indicator integrands are evaluated exactly (binary64 as rationals) and judged by TLC (QuadratureTrace)",
+         "Moment conditions for k <= 2n-1 (equivalent to agreement with an independent GL rule, by uniqueness) for n = 1..200 (+500..2000 thorough) on integer intervals and scalings, with the structural clauses (ascending, strictly inside, symmetric, positive); integrator clauses as identities: result = (b-a)/2 sum w_i y_i at the mapped nodes for any integrand, tabulated data through exact interpolation, QGauss2 tensor sum; every call sequence of length <= 4 over npts on one object vs fresh objects.",
+         "npts omitted after an explicit npts: the object's current count or the constructor's (either accepted). a > b: moments only; a = b outside the quantifier. Accuracy of integrating smooth functions is not claimed by the statement and not checked. Trusted: TLC, exact binary64->rational evaluation (vh/ratproj_q.py)."),
+ "C18": ("6 / C18",
+         "TLA+ spec Stats.tla over exact rationals (weighted moments, weighted median, sigma-clip iteration with tie nondeterminism, piecewise-linear inter/extrapolation, get_stats, cov<->cor); StatsMC runs the wmedian loop, clipping iteration and searchsorted selection as actions against the definitions and exports every bounded case; each concretised on dyadic lattices and executed on esutil.stat with all option settings; results (clipping: the whole iteration re-observed with niter = 0..k) judged by TLC (StatsTrace)",
+         "Exhaustive over (data, weights) of bounded length/values x calcerr x sdev x inputmean, N-by-2 inputs, clipping inputs x nsig x niter, interpolation tables with queries inside/at nodes/outside, symmetric matrices up to 3x3; plus seeded larger cases. Observed floats are projected onto lattice rationals 'to rounding' and TLC accepts only the exact value; clipping is judged link by link along the observed chain.",
+         "Dyadic lattice (denominators <= 2^20); 'to rounding' = 16 ulp of the operand scale. Points exactly on the nsig boundary may be kept or dropped; weighted sigma_clip / get_stats error: either documented convention. get_stats clip mode on more than 8 data is not enumerated. Trusted: TLC, Fraction projection (vh/ratproj.py)."),
+ "C19": ("6 / C19",
+         "TLA+ spec Sampler.tla (rational inverse-CDF sampler, integer-Cholesky sampler, index selection, box and cap membership on the great-circle lattice, two-generator reproducibility) model-checked with TLC incl. implementation-shaped mechanisms as actions (searchsorted+clamp, column Cholesky, rotated cap path with conversion count); every enumerated case executed on the real code with scripted stub generators (lattice deviates) and seeded legacy/new-style generators; observations projected and judged by TLC (SamplerTrace)",
+         "Exhaustive over the stated bounded spaces (density tables on <= 5 uneven nodes, factors <= 3x3, index selection <= 6, caps over lattice centres incl. poles/seam x radii 1e-6..180 degrees x direct/rotated path, boxes incl. zero-width and pole-hugging), all exported cases replayed and trace-validated, plus seeded generic caps and 4x4/5x5 factors: membership, returned radius = separation, ranges, count, reproducibility, grid points exactly where u equals their cumulative value, monotonicity.",
+         "Not decided: uniformity; 2-node tables; values below the first cumulative value beyond monotonicity; deviate-to-sample arrangement. Tolerances: box 1e-12 degree, cap membership and radius = separation 1e-9 degree via the validated longdouble kernel, sampler/Cholesky values 16 ulp. Trusted: TLC, spherelat kernel (validated per run), stub generators."),
+ "C20": ("6 / C20",
+         "TLA+/PlusCal specs Quicksort.tla (explicit stack, hole-based partition, plain + key-value; termination and Sorted/Permutation), Isplit.tla, ProgressIter.tla (lazy consumer/wrapper/source protocol), PoolMap.tla (Take/Finish/Deliver under every worker schedule, liveness under fairness); exported cases executed on esutil.algorithm / numpy_util.splitarray / pbar / pmap (task latencies scripted from TLC's completion orders); observations and per-process event streams judged by TLC trace modules (QuicksortTrace, ChunkTrace, ProgressIterTrace, PoolMapTrace)",
+         "TLC checks every array of bounded length (sorts), every (num, nchunks) / (nper, length) pair (chunking), every option record x iterable kind (progress wrappers: items, order and laziness pulled <= yielded + 1) and every schedule of few items/workers/chunk sizes (pool map: delivered = prefix of map(fn, items)); the real functions are run on every exported case with many container kinds and the trace modules must find the observation allowed - for pmap an interleaving of model actions explaining the recorded per-process streams.",
+         "Text written to file= is unconstrained. simple=True on a length-less iterable without total is a documented rejection. Worker scheduling is driven by scripted latencies (the OS scheduler is not controlled); event order uses per-process sequence numbers only. Trusted: TLC, pcal translation (committed), logging task function."),
 }
 
 NOT_YET = "check under construction in this session (see DESIGN.md section 6); not claimed until its TLA+ model and conformance harness are committed"
